@@ -28,6 +28,10 @@ type c01Case struct {
 	Schemas []c16Schema `json:"schemas"`
 	H       []*c16Tree  `json:"h"`
 	T       *c16Tree    `json:"t"`
+	// extra repetitions of T at the end of the in-process sequence (every one must give the same bytes): for schemas
+	// in which two stored definitions claim the same group/version/kind, where a result that depends on Go's randomised
+	// map iteration order only shows after many runs
+	Reps int `json:"reps,omitempty"`
 }
 
 const (
@@ -167,6 +171,38 @@ func genBuiltinRestore01(g *Rng) c01Case {
 	return c
 }
 
+// genAliasRepeat01: T installs a custom schema that RE-DECLARES the built-in apps/v1 Deployment under a definition name
+// of its own (containers list with or without merge key) and patches a Deployment's containers; T is then repeated many
+// times in one process. Which of the two stored definitions the by-type index points to must be decided by the parse
+// order (the custom schema is parsed after the built-in one), never by map iteration order.
+func genAliasRepeat01(g *Rng, reps int) c01Case {
+	c := c01Case{Reps: reps}
+	var s1 c16Schema
+	for i := 0; i < 400; i++ {
+		s1 = genSchema16(g.Fork(), 1)
+		ok := false
+		for _, d := range s1.Defs {
+			if d.Name == "com.example.v1.DeploymentAlias" && !d.Mk {
+				ok = true
+			}
+		}
+		if s1.Valid && ok {
+			break
+		}
+	}
+	c.Schemas = []c16Schema{s1}
+	if g.Chance(50) {
+		c.H = append(c.H, &c16Tree{Schema: -1, BaseSchema: -1, Namespace: true,
+			Res: []c16Res{{Kind: "Deployment", Name: "hd"}}, Patches: []string{"hd"}})
+	}
+	c.T = &c16Tree{Schema: 0, BaseSchema: -1, Namespace: g.Chance(70),
+		Res: []c16Res{{Kind: "Deployment", Name: "tq"}}, Patches: []string{"tq"}}
+	if g.Chance(40) {
+		c.T.Res = append(c.T.Res, c16Res{Kind: "Foo", Name: "tf"})
+	}
+	return c
+}
+
 func genCase01(g *Rng) c01Case {
 	switch x := g.Intn(100); {
 	case x < 25:
@@ -223,6 +259,9 @@ func (c c01Case) seqs() []c16Seq {
 		reps.Ops = append(reps.Ops, after.Ops...)
 	}
 	reps.Ops = append(reps.Ops, c16Op{K: "reset", Schema: -1}, buildOp(c.T), buildOp(c.T))
+	for k := 0; k < c.Reps; k++ {
+		reps.Ops = append(reps.Ops, buildOp(c.T))
+	}
 	return []c16Seq{alone, after, reps}
 }
 
@@ -269,6 +308,13 @@ func evalCase01(c c01Case, res []c16SeqRes) c01Obs {
 	idx++ // reset
 	aloneReps = append(aloneReps, rep[idx])
 	twice := rep[idx+1] // T immediately after T
+	for k := idx + 2; k < len(rep); k++ {
+		if stepText(rep[k]) != stepText(twice) {
+			o.Problems = append(o.Problems, OracleViolation{Law: "repeatable", Class: "C01/build-not-repeatable",
+				Detail: fmt.Sprintf("T built %d times in a row in one process: run %d differs from run 2\n--- run 2\n%s\n--- run %d\n%s", len(rep)-idx, k-idx+1, stepText(twice), k-idx+1, stepText(rep[k])), Replay: c})
+			break
+		}
+	}
 	for i, a := range aloneReps {
 		if stepText(a) != o.Alone {
 			o.Problems = append(o.Problems, OracleViolation{Law: "repeatable_alone", Class: "C01/alone-not-repeatable",
@@ -408,6 +454,13 @@ func runC01S(r *Run, rng *Rng, tier string) error {
 	r.header = strings.Replace(hdr, "Corr.C16", "Corr.C01S", 1)
 	r.shard = 40
 	cases := loadCorpus01()
+	nAlias, aliasReps := 2, 24
+	if tier == "thorough" {
+		nAlias, aliasReps = 12, 60
+	}
+	for i := 0; i < nAlias; i++ {
+		cases = append(cases, genAliasRepeat01(rng.Fork(), aliasReps))
+	}
 	for i := 0; i < n; i++ {
 		cases = append(cases, genCase01(rng.Fork()))
 	}
